@@ -33,7 +33,8 @@ var bases = []string{
 var searches = []string{"", "?", "a=1", "?a=1", "??a=1", "a=1&b=2", "x y", "é=ü", "a=%zz", "a=b#c", "&&", "=", "?=", "a+b=c+d", "%41=%42", "q=#", "?a=1&a=2", "k", "a=1&&b=2&"}
 var hosts = []string{"example.org", "EXAMPLE.org", "example.org:80", "example.org:443", "example.org:8080", "example.org:", "x/y", "a@b", "x?y", "x#y", "", "[::1]", "[::1]:80", "[::1]:9",
 	"h:65536", "h:0", "h:080", "h:99999999999999999999", "é.com", "é.com:21", "a b", "a:b", "h:8x", "1.2.3.4", "1.2.3.4:21", "xn--", "a..b", "%41"}
-var hostnames = []string{"example.net", "UP.net", "", "x/y", "a:1", "é.org", "[::1]", "a b", "h", "1.2.3.4", "a@b", "x?y"}
+var hostnames = []string{"example.net", "UP.net", "", "x/y", "a:1", "é.org", "[::1]", "a b", "h", "1.2.3.4", "a@b", "x?y",
+	"[::2]:82", "[::1]:443", "[::1]:80", "[::3]", "[::1", "É.Org", "h:", ":80"}
 var ports = []string{"", "80", "443", "21", "8080", "0", "65535", "65536", "-1", "8x", "x8", " 9", "080", "99999", "1e3", "21.5"}
 var protocols = []string{"http", "https", "http:", "HTTPS:", "ws", "wss:", "ftp", "file", "foo", "foo:", "bar:baz", "", ":", "h ttp", "1x"}
 var hashes = []string{"", "#", "x", "#x", "##x", "a b", "é", "#a?b"}
